@@ -27,29 +27,10 @@ type c06Case struct {
 }
 
 func c06Cfg() core.GenCfg {
-	// nocopy fields legitimately alias the input (that is C14's subject): keep them out
-	var refs []string
-	for _, n := range namedRefs() {
-		nc := false
-		s := core.LookupSpec(n)
-		chk := func(s *core.StructSpec) {
-			for _, f := range s.Fields {
-				if f.NoCopy {
-					nc = true
-				}
-			}
-		}
-		chk(s)
-		s.WalkTypes(func(t *core.TypeSpec) {
-			if t.Kind == core.KStruct {
-				chk(t.SS())
-			}
-		})
-		if !nc {
-			refs = append(refs, n)
-		}
-	}
-	return core.GenCfg{Holder: true, MaxFields: 7, MaxNest: 2, MaxBytes: 6000, ContainerMax: 90, NamedRefs: refs, RequiredBias: 5, BigIDs: false}
+	// fields declared nocopy are part of the domain: their own bytes may be views of the input
+	// (C14's subject) and are left out of the extents and, once the input has been overwritten,
+	// of the comparison; everything else in the same object must still own its memory
+	return core.GenCfg{Holder: true, MaxFields: 7, MaxNest: 2, MaxBytes: 6000, ContainerMax: 90, NamedRefs: namedRefs(), RequiredBias: 5, BigIDs: false, NoCopy: true}
 }
 
 func genC06(t *rapid.T) c06Case {
@@ -155,6 +136,9 @@ func collectExtents(s *core.StructSpec, rv reflect.Value, path string, out *[]ex
 			*out = append(*out, extent{a, a + et.Size(), uintptr(et.Align()), p + ":*scalar", hasPointers(et)})
 			fv = fv.Elem()
 		}
+		if f.NoCopy {
+			continue // a view of the input by declaration
+		}
 		if f.Type.Kind == core.KString && s.HasInit {
 			// a string equal to its declared default is the initialiser's literal (static data shared
 			// by every instance), not memory the decoder created for a transmitted value
@@ -197,6 +181,8 @@ type liveObj struct {
 	snap *core.SVal
 	ext  []extent
 	step int
+	// the input has been overwritten: nocopy fields no longer count
+	clobbered bool
 }
 
 func overlapIn(ext []extent) (extent, extent, bool) {
@@ -227,7 +213,7 @@ func runC06(w *worker) func(c c06Case) *Failure {
 					f.Msg = fmt.Sprintf("step %d (%s): object decoded at step %d: %s", stepNo, what, o.step, f.Msg)
 					return f
 				}
-				if m := core.EqualStruct(o.spec, got, o.snap, core.EqOpts{}, "$"); m != nil {
+				if m := core.EqualStruct(o.spec, got, o.snap, core.EqOpts{SkipNoCopy: o.clobbered}, "$"); m != nil {
 					return failf("object-changed", "step %d (%s): the object decoded at step %d changed: %s", stepNo, what, o.step, m)
 				}
 				all = append(all, o.ext...)
@@ -330,6 +316,7 @@ func runC06(w *worker) func(c c06Case) *Failure {
 					for j := range o.in {
 						o.in[j] = 0xA5
 					}
+					o.clobbered = true
 					clobbered = true
 				}
 			case "gc":
